@@ -260,8 +260,8 @@ The following shows that the sticky status never disagrees with the ballots: on 
 blocks never go back, for a proposal stored Passed the library decision on the tally recomputed
 from the *current* ballots is Passed at the current and at every later block.  This needs
 monotonicity of `votes_needed` in the weight (proved here directly, `vn_mono`; C04 has the full
-arithmetic).  (The analogous statement for a stored Rejected needs C04's complement lemma and is
-not claimed here.) -/
+arithmetic).  The analogous statement for a stored Rejected is `rejected_justified` below (it needs
+C04's complement lemma, through `Lemmas/Cw3Status.lean`). -/
 
 theorem castU64_of_le {n : Nat} (h : n ≤ U64_MAX) : castU64 n = n := by
   unfold castU64 U64_MAX at *; omega
